@@ -1284,7 +1284,7 @@ def post_run(tier, seed, workdir):
         return {}
     from vf.contracts import run_repo_tests_with_contracts
     rep = run_repo_tests_with_contracts(CONTRACT_TEST_FILES, workdir,
-                                        timeout=1500)
+                                        timeout=3600)
     if 'error' in rep:
         return {'inconclusive': [rep['error']]}
     out = {'events': {'contracts:InMemoryObjectStore.invariant.repo-tests':
